@@ -160,6 +160,9 @@ func runVdrProperty(c *Ctx, prop string) {
 	r := c.Res
 	r.Rule = "a completed pipestance under VDR in which a volatile stage wrote files and VDR removed at least one entry; distinct by (mode, set of stage-written files with their fate)"
 	vdrPureChecks(c, prop)
+	if prop == "C04" {
+		vdrFsChecks(c)
+	}
 	modes := []string{"rolling", "strict", "post"}
 	var specs []*VdrSpec
 	mk := func(name, src, mode string, seed int64) *VdrSpec {
